@@ -551,6 +551,14 @@ func (c *GroupCoordinator) DeleteGroups(ctx context.Context, req *kmsg.DeleteGro
 	return resp, nil
 }
 
+// ForgetGroup drops the in-memory copy of a group without touching the metadata
+// store, so that the next request for the group loads it from the store again.
+// It is meant for a broker that is not, or was not continuously, the group's
+// coordinator: another broker may have changed the group in the meantime.
+func (c *GroupCoordinator) ForgetGroup(groupID string) {
+	c.deleteGroupState(groupID)
+}
+
 func (c *GroupCoordinator) deleteGroupState(groupID string) {
 	c.mu.Lock()
 	delete(c.groups, groupID)
